@@ -6,6 +6,9 @@ from .C09 import build
 
 def run(ctx):
     _run(ctx)
+    ctx.delegate("C09", ["C09.W123", "C09.W4", "C09.W6", "C09.W8"], "C11.finalize",
+                 "finalize leaves the writer's running state (lengths, counters, cursors) as an undisturbed run has it, so records "
+                 "written afterwards land after the committed ones", floor=4)
     ctx.delegate("C09", ["C09.W5"], "C11.commit",
                  "everything written before the last completed finalize is readable: every successful write re-arms finalize", floor=1)
     ctx.delegate("C13", ["C13.short", "C13.errs"], "C11.reader",
